@@ -206,6 +206,11 @@ def align(res, G, L, residue, live, prog, k):
             bool(code.co_flags & inspect.CO_VARARGS), bool(code.co_flags & inspect.CO_VARKEYWORDS)))
         label = labels.get(g["qual"], "may")
         disc = None
+        if UNTYPABLE in g["args"].values():
+            # the type of a value bound at call start cannot be collected: no trace can be due for this call, and the next
+            # logged trace of the same function belongs to a later call
+            res.count("untypable_completions_without_trace")
+            continue
         if j < len(L) and getattr(L[j].func, "__code__", None) is g["code"]:
             disc = compare(res, g, L[j], prog, k)
             if disc and g.get("how") == "unwind-at-suspended-yield":
